@@ -1217,6 +1217,9 @@ def _c11_job(job) -> dict:
                 res["calls"] += 1
             if c.get("cardinality"):
                 res["shapes"].add((c["cardinality"], c.get("nreq"), c.get("nresp"), c["check"]))
+            if c.get("skipped"):
+                res["payload_skipped"] = res.get("payload_skipped", 0) + 1
+                continue
             if c["ok"]:
                 continue
             if c["check"] in ("locate-classes", "resolve-types") and bad_mods:
@@ -1258,6 +1261,9 @@ def check_C11(seed: int, n: int) -> dict:
                 continue
             col.cases += res["calls"]
             services += res["services"]
+            for _ in range(res.get("payload_skipped", 0)):
+                col.skip("call-skipped:payload-not-roundtrippable", "the generated request/response value does not survive bytes()/parse() in the "
+                         "default runtime (codec defect, outside C11); the call was not made")
             shapes |= res["shapes"]
             col.cover({k: v for k, v in schema.features.items() if k.startswith(("rpc.", "service"))})
             text = schema.text()
